@@ -378,10 +378,32 @@ def run_series_functions(cx):
               where=b.file)
         sd = b.calls('func1::series1::sort_and_dedup')
         cx.ob('ORDER', 'Series1::y_crossings:sorted', len(sd) == 1 and all(b.dominates(sd[0].bb, e2) for e2 in b.exits()), 'crossings are sorted and de-duplicated before they are returned', where=b.file)
+    # bulk evaluation: the provided Func1::fs is one f(x) per abscissa, Series1::f is interpolate, and Series1 does not replace the bulk
+    # evaluator with a hand-written sweep (which would have to reproduce the NaN-outside convention on both sides on its own)
+    b = cx.fn('func1::Func1::fs')
+    if b:
+        D = '(call *DiscreteDomain::iter (param xs))'
+        cx.expect_comp('EXPR', 'Func1::fs', b, cx.retval(b), D, f'(call *Func1::f (param self) (index {D} (itervar (range 0 (len {D})))))',
+                       'the provided bulk evaluator returns f(x) for every abscissa of the domain, in order', where=b.file)
+    b = cx.fn(f'{S1}::f')
+    if b:
+        cx.expect('EXPR', 'Series1::f', cx.retval(b), f'(call *Series1::interpolate (param self) (param x))', 'Series1 evaluates through interpolate (NaN outside the abscissa range)', where=b.file)
+    impl = sorted(p_.rsplit('::', 1)[-1] for p_ in cx.facts.bodies if p_.startswith('<func1::series1::Series1 as func1::Func1>::') and '{closure' not in p_)
+    cx.ob('ENC', 'Series1:Func1-impl', impl == ['f'], 'Series1 implements Func1 through `f` alone: every bulk evaluation (fs, from_sampled, scaled_y, resampling) is the provided per-abscissa loop over interpolate',
+          found=str(impl))
     b = cx.fn('func1::series1::sort_and_dedup')
     if b:
         so, dd = b.calls('slice::sort_by'), b.calls('Vec::dedup_by')
         cx.ob('ORDER', 'sort_and_dedup', len(so) == 1 and len(dd) == 1 and b.dominates(so[0].bb, dd[0].bb), 'sort precedes dedup', where=b.file)
+        okd = False
+        for cl in cx.facts.closures_of(b.name):
+            v = cx.retval(cl)
+            e = match('(lt (call f64::abs (sub (param 2) (param 3))) $eps)', v) or match('(le (call f64::abs (sub (param 2) (param 3))) $eps)', v)
+            if e is not None and e['eps'][0] == 'const' and isinstance(e['eps'][1], float) and 0.0 < e['eps'][1] <= 1e-9:
+                okd = True
+        cx.ob('EXPR', 'sort_and_dedup:predicate', okd,
+              'two crossings are one when they differ by less than a small POSITIVE CONSTANT (a relative tolerance vanishes at x = 0, where a level met exactly at a knot is found by both adjacent segments, and grows with |x| until distinct crossings merge)',
+              where=b.file)
     # ---------------------------------------------------------------- areas and splits
     b = cx.fn(f'{S1}::middle_reiemann_areas')
     if b:
